@@ -30,21 +30,21 @@ CHECKS = {
     "C04": dict(
         level="model_checking",
         technique="explicit-state breadth-first search (stateright) whose transition function is the real HashMapContext API run in lock-step with an abstract map model; plus unmerged depth-3 histories",
-        text="All reachable abstract states of a HashMapContext over 2 names x 12 values x 2 function slots x the builtin switch, every operation in every state (set_value, expression assignments with all 9 assignment operators, clears, set_function, switch, clone), return value and full observation compared with the model after each transition; closed sub-machine to closure, op-assign machine to the fixpoint of a magnitude box (thorough). This is the finite-state protocol case model checking is made for.",
+        text="All reachable abstract states of a HashMapContext over 2 names x 15 values (incl. 1.0, 0.0, -0.0, NaN and a string spelling a variable name) x 2 function slots x the builtin switch, every operation in every state (set_value, expression assignments with all 9 assignment operators, clears, set_function, switch, clone), return value and full observation compared with the model after each transition; closed sub-machine to closure, op-assign machine to the fixpoint of a magnitude box (thorough). This is the finite-state protocol case model checking is made for.",
         note="Trusted: the abstract map model (RCtx in mc/src/refmodel/interp.rs); state merging by observation (hidden state is covered by the unmerged-history pass to its depth only).",
         design_ref="DESIGN.md section 4, C04",
     ),
     "C05": dict(
         level="exploration",
         technique="exhaustive enumeration of all `,`/`;` separator skeletons x element fillings (incl. nested groups), real tree and evaluation compared with a reference tree and interpreter",
-        text="Every skeleton of up to 4 (quick) / 6 (thorough) separators with every filling from absent / literal / assignment / read / op-assign, nested parenthesised sequences in every slot, and the same as call arguments; tree shape, value, final context and call log are compared. The sequence logic depends only on the local pattern of separators and parentheses, which these bounds cover completely.",
+        text="Every skeleton of up to 4 (quick) / 6 (thorough) separators with every filling from absent / literal / assignment / read / op-assign, nested parenthesised sequences in every slot, and the same as call arguments; tree shape, value, final context and call log are compared; sequences whose value is the empty value also go through the typed accessor Node::eval_empty_with_context_mut. The sequence logic depends only on the local pattern of separators and parentheses, which these bounds cover completely.",
         note="Trusted: the split-at-`;`-then-`,` reference and the reference interpreter.",
         design_ref="DESIGN.md section 4, C05",
     ),
     "C06": dict(
         level="exploration",
         technique="exhaustive enumeration of strings over small hostile alphabets (quoted texts, raw sources, numeric-alphabet strings, words) and of integer/double pools x renderings x embeddings, against an independent lexer/classifier",
-        text="All texts up to 4/6 characters over a 16-character alphabet quoted and embedded, all raw quote-led sources up to 6/9, all integers below 2^14/2^17 in five spellings plus power boundaries, all strings up to 6/8 characters over the numeric alphabet, ~1500-4500 doubles in up to 11 renderings (incl. 40-digit expansions) and 12 embeddings, all words up to 3/5 over 21 characters, plus literals of n characters (n up to 129/400). Token assembly is character-local, so short exhaustive alphabets reach every branch of it.",
+        text="All texts up to 4/6 characters over a 16-character alphabet quoted and embedded, all raw quote-led sources up to 6/9, all integers below 2^14/2^17 in five spellings plus power boundaries, all strings up to 6/8 characters over the numeric alphabet `0 1 5 9 . e E + - x`, ~1500-4500 doubles in up to 13 renderings (incl. 40-digit expansions and the upper-case exponent marker) and 12 embeddings, all words up to 3/5 over 22 characters, plus literals of n characters (n up to 129/400). Token assembly is character-local, so short exhaustive alphabets reach every branch of it.",
         note="Trusted: mc/src/refmodel/lexer.rs; Rust's str::parse::<f64> as the correctly rounded conversion. Known finding F10 (inf/nan words) is reported as KNOWN-FINDING.",
         design_ref="DESIGN.md section 4, C06",
     ),
@@ -65,7 +65,7 @@ CHECKS = {
     "C09": dict(
         level="model_checking",
         technique="explicit enumeration of all configuration histories (switch / clone / clear / define) up to a depth from an empty context x 52 names x 15 call forms, against a reference resolution model",
-        text="For every builtin name and three non-builtin names, every history of up to 4 (quick) / 5 (thorough) operations over disable, enable, clone, clone_from, clear_functions, clear_variables, define function, define failing function, bind variable, plus the two fixed-policy contexts; 15 call forms evaluated in each configuration, with the user function recording its argument. The configuration matrix is finite and is enumerated completely (guarded: all 8 switch x function x variable combinations reached for every name).",
+        text="For every builtin name and three non-builtin names, every history of up to 4 (quick) / 5 (thorough) operations over disable, enable, clone, clone_from, clear_functions, clear_variables, define function, define failing function, bind variable, plus the two fixed-policy contexts; 15 call forms evaluated in each configuration through Node::eval_with_context and through Node::eval_with_context_mut on a clone, with the user function recording its argument. The configuration matrix is finite and is enumerated completely (guarded: all 8 switch x function x variable combinations reached for every name).",
         note="Trusted: reference resolution order (context function, then builtin if enabled, else unknown) and the C10 builtin table for builtin results.",
         design_ref="DESIGN.md section 4, C09",
     ),
@@ -86,14 +86,14 @@ CHECKS = {
     "C12": dict(
         level="model_checking",
         technique="exhaustive enumeration of token sequences x 11 contexts x all 48 entry points + build_operator_tree; each typed result compared with the projection of the untyped one, tree level with string level, context-free with fresh context, repeated runs",
-        text="Every token sequence up to 4 (quick) / 5 (thorough) tokens over an alphabet reaching all six result types and every error stage, in 11 contexts, through all 24 string-level entry points (twice), all 24 Node methods and build_operator_tree. A copy-paste slip in any wrapper shows on the first input whose untyped result distinguishes it; all value types and errors occur (guarded).",
+        text="Every token sequence up to 4 (quick) / 5 (thorough) tokens over an alphabet reaching all six result types and every error stage, in 11 contexts, through all 24 string-level entry points (twice), all 24 Node methods and build_operator_tree; sequences up to 4 tokens also written without spaces where the reference lexer reads the same tokens. A copy-paste slip in any wrapper shows on the first input whose untyped result distinguishes it; all value types and errors occur (guarded).",
         note="Trusted: the projection rules written from the property statement.",
         design_ref="DESIGN.md section 4, C12",
     ),
     "C13": dict(
         level="model_checking",
         technique="depth-first search over all token-prefix states up to a length over a class-representative alphabet on the real tokenizer/tree builder/evaluator, classified by an independent recursive-descent recogniser",
-        text="Every token sequence up to 7 (quick) / 9 (thorough, 5.7 G states) tokens over 12 class representatives and up to 4 / 5 over all 34 operator tokens, plus 18 families of long malformed inputs; unbalanced input must be rejected, balanced input never reported unbalanced, ill-formed input must not evaluate successfully in any of 5 generous contexts.",
+        text="Every token sequence up to 7 (quick) / 9 (thorough, 5.7 G states) tokens over 12 class representatives (up to 6 also written without spaces where the reference lexer reads the same tokens) and up to 4 / 5 over all 34 operator tokens, plus 27 families of long malformed inputs; unbalanced input must be rejected, balanced input never reported unbalanced, ill-formed input must not evaluate successfully in any of 5 generous contexts.",
         note="Trusted: mc/src/refmodel/recogniser.rs as the definition of well-formedness; arity-correct trees that merely never evaluate are counted, not reported.",
         design_ref="DESIGN.md section 4, C13",
     ),
